@@ -324,6 +324,57 @@ def time_value(rng, dtype_pick):
     return t, torch.tensor(t)
 
 
+class ClockProbe(pp.module.NLS):
+    """Time-invariant dynamics that record the time argument they are handed."""
+
+    def __init__(self):
+        super().__init__()
+        self.seen = []
+
+    def state_transition(self, state, input, t=None):
+        self.seen.append(int(t))
+        return 0.5 * state + input
+
+    def observation(self, state, input, t=None):
+        return state
+
+
+def run_large_times(ck, rng):
+    """Clock values beyond 2^31 (millisecond time stamps, very long runs): the same automaton, on systems whose
+    equations do not depend on time (so that only the bookkeeping is judged)."""
+    big = [2 ** 31 - 2, 2 ** 31 + 5, 1_700_000_000_000 + int(rng.integers(0, 1000)), 2 ** 40 + 3]
+    for kind in ("LTI", "NLS"):
+        for how in ("reset(int)", "reset(tensor)", "systime=int", "systime=tensor"):
+            if kind == "LTI":
+                A = torch.eye(2, dtype=torch.float64) * 0.5
+                s = pp.module.LTI(A, torch.eye(2, dtype=torch.float64), torch.eye(2, dtype=torch.float64), torch.zeros(2, 2, dtype=torch.float64))
+            else:
+                s = ClockProbe()
+            auto = R.TimeAutomaton()
+            for t0 in big:
+                arg = t0 if how.endswith("int)") or how.endswith("=int") else torch.tensor(t0)
+                regime = f"{kind}/large-time/{how}"
+                if how.startswith("reset"):
+                    okc, _ = ck.call("systime_automaton", regime, f"{kind}.reset", lambda: s.reset(arg))
+                else:
+                    okc, _ = ck.call("systime_automaton", regime, f"{kind}.systime.setter", lambda: setattr(s, "systime", arg))
+                if not okc:
+                    continue
+                auto.set(t0)
+                after_event(ck, s, auto, kind, "large-time/" + how, ("large", kind, how), t0)
+                x, u = torch.ones(2, dtype=torch.float64), torch.ones(2, dtype=torch.float64)
+                for _ in range(3):
+                    okc, _ = ck.call("systime_automaton", regime, f"{kind}.__call__", lambda: s(x, u))
+                    if not okc:
+                        break
+                    if kind == "NLS":
+                        ck.check(s.seen[-1] == auto.t, "systime_automaton", regime, "NLS.__call__", "dynamics_handed_a_different_time",
+                                 {"handed": s.seen[-1], "expected": auto.t})
+                    auto.call()
+                    after_event(ck, s, auto, kind, "large-time/call", ("large", kind, how), auto.t)
+            ck.mark(f"event/{kind}/large-time")
+
+
 def after_event(ck, s, auto, kind, ev, seq_key, step):
     got = int(s.systime)
     regime = f"{kind}/{ev}"
@@ -701,6 +752,8 @@ def run(ck):
                 for rep in range(2):
                     run_nls_sequence(ck, rng, S, dn, (ck.shard, "nls", j, dn, rep), int(rng.integers(20, 41)))
                 run_nls_batch1(ck, rng, S, dn, 3)
+        if ck.shard == 0:
+            run_large_times(ck, rng)
     finally:
         contract.remove()
     ck.note("contract_evaluations", contract.n)
@@ -712,6 +765,7 @@ def run(ck):
            "eval()/train()"]
     for kind in ("LTI", "LTV", "NLS"):
         ck.require(*[f"event/{kind}/{e}" for e in evs])
+    ck.require("event/LTI/large-time", "event/NLS/large-time")
     ck.require("event/systime=tensor/kept", "event/LTI/set_refpoint(t)", "event/LTV/set_refpoint(t)", "event/NLS/set_refpoint(x,u,t)",
                "event/NLS/set_refpoint(partial)", "event/NLS/read-properties")
     ck.require("NLS/explicit-refpoint", "NLS/default-refpoint", "NLS/partial-refpoint", "NLS/read-after-further-calls",
